@@ -7,6 +7,7 @@ import Oracle.Exhaust
 import Oracle.TypeExpr
 import Oracle.Literal
 import Oracle.SampleMd
+import Oracle.Tokenizer
 open Oracle
 
 /-- a line is `(<stream> payload...)`; the answer is one S-expression -/
@@ -17,6 +18,7 @@ def handle (line : String) : String :=
     | "echo" => toString (Sx.list payload)
     | "slice.hist" => toString (Oracle.Slice.handle payload)
     | "c11.scan" | "c11.interp" | "c11.unquote" | "c11.sprintf" | "c11.lit" => toString (Oracle.Literal.handle stream payload)
+    | "tok.scan" | "tok.stream" => toString (Oracle.Tokenizer.handle stream payload)
     | "c18.run" => toString (Oracle.SampleMd.handle payload)
     | "c15.type" => toString (Oracle.TypeExpr.handle payload)
     | "c09.match" => toString (Oracle.Exhaust.handle payload)
